@@ -400,6 +400,14 @@ def m_drop(ex, n, a, f):
     return UNIT
 
 
+@model(r'^(std|core)::hint::select_unpredictable::<')
+def m_select_unpredictable(ex, n, a, f):
+    c = a[0]
+    if not isinstance(c, bool):
+        c = ex.branch(c if z3.is_bool(c) else (c != 0), 'select-unpredictable')
+    return a[1] if c else a[2]
+
+
 @model(r'^std::intrinsics::(cold_path|unlikely|likely)')
 def m_likely(ex, n, a, f):
     return a[0] if a else UNIT
